@@ -353,7 +353,10 @@ package model
 //@   requires [current_well_formed] current != nil && original != nil && wellFormed(*listener, *current)
 //@   requires [original_well_formed] wellFormed(*listener, *original) && len(original.Criteria) > 0
 //@   ensures [state] result != nil && result.DMP != nil
-//@   ensures [well_formed] wellFormed(*listener, *result.DMP)
+//@   ensures [criteria_distinct] distinctCriteria(result.DMP.Criteria)
+//@   ensures [values_present] hasValues(result.DMP.ConsideredAlternatives, result.DMP.Criteria) && hasValues(result.DMP.NotConsideredAlternatives, result.DMP.Criteria)
+//@   ensures [parameters_cover] validParams(*listener, result.DMP.MethodParameters) && coversAll(*listener, result.DMP.MethodParameters, result.DMP.Criteria)
+//@   ensures [alternatives_distinct] distinctAlts(*result.DMP)
 //@   ensures [same_alternatives] sameAlts(*result.DMP, *current)
 
 // ---- decision-maker.go: the bias pipeline (C07, C08)
@@ -476,3 +479,104 @@ package model
 //@   ensures [C20 validated_before_answering] validCriteria(dm.Criteria)
 //@             && (forall i int, c int :: 0 <= i && i < len(dm.KnownAlternatives) && 0 <= c && c < len(dm.Criteria) ==> dm.Criteria[c].Id in dm.KnownAlternatives[i].Criteria)
 //@   ensures [C08 one_report_per_enabled_bias] result != nil && forall i int :: 0 <= i && i < len(result.Biases) ==> typeis(result.Biases[i], BiasParams) && !result.Biases[i].(BiasParams).Disabled
+
+// ---- alternative.go: evaluation results and rankings (C01, C03, C04)
+
+//@ spec val(r AlternativeResult) real = r.Evaluation.(EvaluationSingleValue).Value
+//@ spec round8(v real) real = round(v * 100000000.0) / 100000000.0
+
+//@ func ValueAlternativeResult
+//@   property C03 C04
+//@   ensures [single_value] fresh(result) && result.Alternative == *alternative && typeis(result.Evaluation, EvaluationSingleValue) && val(*result) == value
+
+//@ func (*AlternativeResult).Value
+//@   property C03 C04 C01
+//@   panics_iff [not_single_value] !typeis(a.Evaluation, EvaluationSingleValue)
+//@   ensures [value] result == val(*a)
+
+//@ func (*AlternativeResult).rounded
+//@   property C03 C04
+//@   panics_iff [not_single_value] !typeis(a.Evaluation, EvaluationSingleValue)
+//@   ensures [rounded] fresh(result) && result.Alternative == a.Alternative && typeis(result.Evaluation, EvaluationSingleValue) && val(*result) == round8(val(*a))
+
+//@ func (*AlternativeResults).Less
+//@   property C04
+//@   ensures [order] result <==> (val((*a)[i]) > val((*a)[j]) || (val((*a)[i]) == val((*a)[j]) && (*a)[i].Alternative.Id < (*a)[j].Alternative.Id))
+
+// linked(all, va, ida, j): entry j belongs to the links of the alternative (ida, va): same value (and not itself), or the next lower distinct value
+//@ pred linked(all []AlternativeResult, va real, ida string, j int) =
+//@      (val(all[j]) == va && all[j].Alternative.Id != ida)
+//@   || (val(all[j]) < va && !(exists k int :: 0 <= k && k < len(all) && val(all[j]) < val(all[k]) && val(all[k]) < va))
+//@   opaque
+
+//@ func (*AlternativeResult).positionInRanking
+//@   property C01 C04
+//@   requires [single] typeis(a.Evaluation, EvaluationSingleValue) && forall j int :: 0 <= j && j < len(*allAlternatives) ==> typeis((*allAlternatives)[j].Evaluation, EvaluationSingleValue)
+//@   requires [sorted] forall i int, j int :: 0 <= i && i < j && j < len(*allAlternatives) ==> val((*allAlternatives)[i]) >= val((*allAlternatives)[j])
+//@   requires [distinct] forall i int, j int :: 0 <= i && i < j && j < len(*allAlternatives) ==> (*allAlternatives)[i].Alternative.Id != (*allAlternatives)[j].Alternative.Id
+//@   requires [member] exists p int :: 0 <= p && p < len(*allAlternatives) && (*allAlternatives)[p].Alternative.Id == a.Alternative.Id && val((*allAlternatives)[p]) == val(*a)
+//@   ensures [entry] fresh(result) && result.AlternativeResult == *a
+//@   ensures [complete reveal:linked] forall j int :: 0 <= j && j < len(*allAlternatives) && linked(*allAlternatives, val(*a), a.Alternative.Id, j) ==>
+//@             exists m int :: 0 <= m && m < len(result.BetterThanOrSameAs) && result.BetterThanOrSameAs[m] == (*allAlternatives)[j].Alternative.Id
+//@   ensures [sound reveal:linked] forall m int :: 0 <= m && m < len(result.BetterThanOrSameAs) ==>
+//@             exists j int :: 0 <= j && j < len(*allAlternatives) && result.BetterThanOrSameAs[m] == (*allAlternatives)[j].Alternative.Id && linked(*allAlternatives, val(*a), a.Alternative.Id, j)
+//@   ensures [no_self] forall m int :: 0 <= m && m < len(result.BetterThanOrSameAs) ==> result.BetterThanOrSameAs[m] != a.Alternative.Id
+//@   ensures [no_duplicates] forall m int, q int :: 0 <= m && m < q && q < len(result.BetterThanOrSameAs) ==> result.BetterThanOrSameAs[m] != result.BetterThanOrSameAs[q]
+//@   loop 1 invariant [equal_collected] forall j int :: 0 <= j && j < iter && val((*allAlternatives)[j]) == val(*a) && (*allAlternatives)[j].Alternative.Id != a.Alternative.Id ==>
+//@             exists m int :: 0 <= m && m < len(betterThanOrSameAs) && betterThanOrSameAs[m] == (*allAlternatives)[j].Alternative.Id
+//@   loop 1 invariant [lower_collected] forall j int :: 0 <= j && j < iter && val((*allAlternatives)[j]) < val(*a) ==>
+//@             wasLowerValueFound && val((*allAlternatives)[j]) == nextLowerThanAltValue
+//@             && exists m int :: 0 <= m && m < len(betterThanOrSameAs) && betterThanOrSameAs[m] == (*allAlternatives)[j].Alternative.Id
+//@   loop 1 invariant [next] (wasLowerValueFound ==> nextLowerThanAltValue < val(*a) && exists j int :: 0 <= j && j < iter && val((*allAlternatives)[j]) == nextLowerThanAltValue)
+//@             && (!wasLowerValueFound ==> nextLowerThanAltValue == val(*a))
+//@   loop 1 invariant [sound] forall m int :: 0 <= m && m < len(betterThanOrSameAs) ==> exists j int :: 0 <= j && j < iter && betterThanOrSameAs[m] == (*allAlternatives)[j].Alternative.Id
+//@             && ((val((*allAlternatives)[j]) == val(*a) && (*allAlternatives)[j].Alternative.Id != a.Alternative.Id) || val((*allAlternatives)[j]) < val(*a))
+//@   loop 1 invariant [no_duplicates] forall m int, q int :: 0 <= m && m < q && q < len(betterThanOrSameAs) ==> betterThanOrSameAs[m] != betterThanOrSameAs[q]
+//@   loop 1 invariant [fresh] fresh(betterThanOrSameAs)
+
+//@ pred ordered(x AlternativeResult, y AlternativeResult) = val(x) > val(y) || (val(x) == val(y) && x.Alternative.Id < y.Alternative.Id)
+//@ pred linkedR(res []AlternativesRankEntry, va real, ida string, j int) =
+//@      (val(res[j].AlternativeResult) == va && res[j].Alternative.Id != ida)
+//@   || (val(res[j].AlternativeResult) < va && !(exists k int :: 0 <= k && k < len(res) && val(res[j].AlternativeResult) < val(res[k].AlternativeResult) && val(res[k].AlternativeResult) < va))
+//@   opaque
+
+//@ func (*AlternativeResults).Ranking
+//@   property C01 C04
+//@   requires [single] forall j int :: 0 <= j && j < len(*a) ==> typeis((*a)[j].Evaluation, EvaluationSingleValue)
+//@   requires [distinct] forall i int, j int :: 0 <= i && i < j && j < len(*a) ==> (*a)[i].Alternative.Id != (*a)[j].Alternative.Id
+//@   ensures [one_entry_each] fresh(result) && fresh(*result) && len(*result) == len(*a)
+//@   ensures [entries_are_inputs] forall i int :: 0 <= i && i < len(*result) ==> typeis((*result)[i].Evaluation, EvaluationSingleValue)
+//@             && exists j int :: 0 <= j && j < len(*a) && (*result)[i].Alternative == (*a)[j].Alternative && val((*result)[i].AlternativeResult) == round8(val((*a)[j]))
+//@   ensures [all_inputs_present] forall j int :: 0 <= j && j < len(*a) ==> exists i int :: 0 <= i && i < len(*result) && (*result)[i].Alternative == (*a)[j].Alternative
+//@   ensures [C04 ordered_by_value_then_id] forall i int, j int :: 0 <= i && i < j && j < len(*result) ==> !ordered((*result)[j].AlternativeResult, (*result)[i].AlternativeResult)
+//@   ensures [distinct_ids] forall i int, j int :: 0 <= i && i < j && j < len(*result) ==> (*result)[i].Alternative.Id != (*result)[j].Alternative.Id
+//@   ensures [links_complete] forall i int, j int :: 0 <= i && i < len(*result) && 0 <= j && j < len(*result) && linkedR(*result, val((*result)[i].AlternativeResult), (*result)[i].Alternative.Id, j) ==>
+//@             exists m int :: 0 <= m && m < len((*result)[i].BetterThanOrSameAs) && (*result)[i].BetterThanOrSameAs[m] == (*result)[j].Alternative.Id
+//@   ensures [links_sound] forall i int, m int :: 0 <= i && i < len(*result) && 0 <= m && m < len((*result)[i].BetterThanOrSameAs) ==>
+//@             exists j int :: 0 <= j && j < len(*result) && (*result)[i].BetterThanOrSameAs[m] == (*result)[j].Alternative.Id && linkedR(*result, val((*result)[i].AlternativeResult), (*result)[i].Alternative.Id, j)
+//@   ensures [C01 no_self_no_duplicates] forall i int, m int :: 0 <= i && i < len(*result) && 0 <= m && m < len((*result)[i].BetterThanOrSameAs) ==>
+//@             (*result)[i].BetterThanOrSameAs[m] != (*result)[i].Alternative.Id
+//@             && (forall q int :: m < q && q < len((*result)[i].BetterThanOrSameAs) ==> (*result)[i].BetterThanOrSameAs[m] != (*result)[i].BetterThanOrSameAs[q])
+//@   returnhint [entries] len(ranking) == len(alternativeResults) && forall k int :: 0 <= k && k < len(ranking) ==> ranking[k].AlternativeResult == alternativeResults[k]
+//@   returnhint [bridge reveal:linked reveal:linkedR] forall va real, ida string, j int :: 0 <= j && j < len(ranking) ==> (linkedR(ranking, va, ida, j) <==> linked(alternativeResults, va, ida, j))
+//@   loop 1 invariant [ctx] fresh(alternativeResults) && len(alternativeResults) == len(*a) && alternativesNum == len(*a)
+//@   loop 1 invariant [rounded] forall k int :: 0 <= k && k < iter ==> typeis(alternativeResults[k].Evaluation, EvaluationSingleValue)
+//@             && alternativeResults[k].Alternative == (*a)[k].Alternative && val(alternativeResults[k]) == round8(val((*a)[k]))
+//@   loop 2 invariant [ctx] fresh(alternativeResults) && len(alternativeResults) == len(*a) && alternativesNum == len(*a) && fresh(ranking) && len(ranking) == len(*a)
+//@             && arr(ranking) != arr(alternativeResults)
+//@   loop 2 invariant [sorted_list_single] forall k int :: 0 <= k && k < len(alternativeResults) ==> typeis(alternativeResults[k].Evaluation, EvaluationSingleValue)
+//@   loop 2 invariant [sorted_list_members] forall k int :: 0 <= k && k < len(alternativeResults) ==> exists j int :: 0 <= j && j < len(*a)
+//@             && alternativeResults[k].Alternative == (*a)[j].Alternative && val(alternativeResults[k]) == round8(val((*a)[j]))
+//@   loop 2 invariant [sorted_list_onto] forall j int :: 0 <= j && j < len(*a) ==> exists k int :: 0 <= k && k < len(alternativeResults) && alternativeResults[k].Alternative == (*a)[j].Alternative
+//@   loop 2 invariant [sorted_list_order] forall i int, j int :: 0 <= i && i < j && j < len(alternativeResults) ==> !ordered(alternativeResults[j], alternativeResults[i])
+//@   loop 2 invariant [sorted_list_distinct] forall i int, j int :: 0 <= i && i < j && j < len(alternativeResults) ==> alternativeResults[i].Alternative.Id != alternativeResults[j].Alternative.Id
+//@   loop 2 invariant [entries] forall k int :: 0 <= k && k < iter ==> ranking[k].AlternativeResult == alternativeResults[k]
+//@   loop 2 invariant [entry_members] forall k int :: 0 <= k && k < iter ==> exists j int :: 0 <= j && j < len(*a) && ranking[k].Alternative == (*a)[j].Alternative
+//@   loop 2 invariant [entry_members2] forall k int :: 0 <= k && k < iter ==> typeis(ranking[k].Evaluation, EvaluationSingleValue)
+//@   loop 2 invariant [links_complete] forall i int, j int :: 0 <= i && i < iter && 0 <= j && j < len(alternativeResults) && linked(alternativeResults, val(alternativeResults[i]), alternativeResults[i].Alternative.Id, j) ==>
+//@             exists m int :: 0 <= m && m < len(ranking[i].BetterThanOrSameAs) && ranking[i].BetterThanOrSameAs[m] == alternativeResults[j].Alternative.Id
+//@   loop 2 invariant [links_sound] forall i int, m int :: 0 <= i && i < iter && 0 <= m && m < len(ranking[i].BetterThanOrSameAs) ==>
+//@             exists j int :: 0 <= j && j < len(alternativeResults) && ranking[i].BetterThanOrSameAs[m] == alternativeResults[j].Alternative.Id && linked(alternativeResults, val(alternativeResults[i]), alternativeResults[i].Alternative.Id, j)
+//@   loop 2 invariant [no_self_no_duplicates] forall i int, m int :: 0 <= i && i < iter && 0 <= m && m < len(ranking[i].BetterThanOrSameAs) ==>
+//@             ranking[i].BetterThanOrSameAs[m] != alternativeResults[i].Alternative.Id
+//@             && (forall q int :: m < q && q < len(ranking[i].BetterThanOrSameAs) ==> ranking[i].BetterThanOrSameAs[m] != ranking[i].BetterThanOrSameAs[q])
